@@ -180,3 +180,11 @@ package providers
 // ---- C06 / C16: code redemption is never coalesced ---------------------------------------------------------------
 //@ func (p *SingleFlightProvider) Redeem(redirectURL string, code string) (*sessions.SessionState, error)
 //@   ensures [C06 C16] redeems_this_code_itself: called(@Redeem#1) && arg(@Redeem#1, 0) == old(p.provider) && arg(@Redeem#1, 1) == redirectURL && arg(@Redeem#1, 2) == code && result.0 == @Redeem#1.0 && result.1 == @Redeem#1.1
+
+// Each wrapper coalesces over a flight group of its own: calls made through different wrappers (one per
+// upstream, each with its own provider and statsd tags) are never merged with each other.
+//@ func NewSingleFlightProvider(provider Provider, StatsdClient *statsd.Client) *SingleFlightProvider
+//@   modifies nothing
+//@   fresh result
+//@   fresh result.single
+//@   ensures [C16] wraps_the_given_provider_with_a_flight_group_of_its_own: result.provider == provider && result.single != nil && result.StatsdClient == StatsdClient
